@@ -249,6 +249,8 @@ package iohelp
 // what it delivers, failed(x) latches "some call on x returned an error".
 
 //@ define okR(er *ErrorReader) bool = len(er.buffer) == 8 && er.Reader != nil && (failed(er.Reader) ==> er.Err != nil)
+// ur(r): the reader bytes finally come from — the wrapped reader when r already is an *ErrorReader, else r itself
+//@ define ur(r io.Reader) io.Reader = ite(istype(r, *ErrorReader), asptr(r, *ErrorReader).Reader, r)
 //@ define okRI(r io.Reader) bool = r != nil && (istype(r, *ErrorReader) ==> asptr(r, *ErrorReader) != nil && okR(asptr(r, *ErrorReader))) && (!istype(r, *ErrorReader) ==> !failed(r))
 
 //@ func NewErrorReader
@@ -285,8 +287,10 @@ package iohelp
 
 //@ func (*ErrorReader).Drain
 //@   requires okR(er)
+//@   ensures okR(er)
+//@   ensures old(er.Err) != nil ==> er.Err != nil
 //@   ensures taken(er.Reader) >= old(taken(er.Reader))
-//@   modifies taken(er.Reader), failed(er.Reader), any(io.LimitedReader.N), fresh(byte), tr(), hw(), alloc()
+//@   modifies er.Err, taken(er.Reader), failed(er.Reader), any(io.LimitedReader.N), fresh(byte), tr(), hw(), alloc()
 
 // Stream readers. [AGREE]: on success the result is what the byte-slice reader returns for the
 // bytes taken. [LATCH]: a short read is reflected in r.Err. [STALE]: when the read comes up short,
